@@ -17,6 +17,7 @@ from agilerl.networks.actors import StochasticActor
 from agilerl.networks.base import EvolvableNetwork
 from agilerl.networks.value_networks import ValueNetwork
 from agilerl.typing import ArrayOrTensor, ExperiencesType, GymEnvType
+from agilerl.utils import verif_hooks
 from agilerl.utils.algo_utils import (
     flatten_experiences,
     get_experiences_samples,
@@ -400,6 +401,20 @@ class PPO(RLAlgorithm):
 
             returns = advantages + values
 
+        if verif_hooks.ENABLED:
+            verif_hooks.record(
+                "ppo.gae",
+                rewards=rewards,
+                dones=dones,
+                values=values,
+                next_value=next_value,
+                next_done=next_done,
+                advantages=advantages,
+                returns=returns,
+                gamma=self.gamma,
+                gae_lambda=self.gae_lambda,
+            )
+
         # Flatten experiences from (batch_size, num_envs, ...) to (batch_size*num_envs, ...)
         # after checking if experiences are vectorized
         experiences = (states, actions, log_probs, advantages, returns, values)
@@ -408,6 +423,17 @@ class PPO(RLAlgorithm):
 
         # Move experiences to algo device
         experiences = self.to_device(*experiences)
+
+        if verif_hooks.ENABLED:
+            verif_hooks.record(
+                "ppo.rows",
+                states=experiences[0],
+                actions=experiences[1],
+                log_probs=experiences[2],
+                advantages=experiences[3],
+                returns=experiences[4],
+                values=experiences[5],
+            )
 
         # Get number of samples from the returns tensor
         num_samples = experiences[4].size(0)
